@@ -7,7 +7,8 @@
 (*    DG  : g2 -> dg (dep group <<code, x2>>), dgd (dep group <<code, x1>>)                             *)
 (*    DEP : g3 -> dfail, dloop (code cells of the always-failure / infinite-loop scripts)               *)
 (*    F   : g4 -> f1 (lock = always failure), l1 (lock = infinite loop)                                 *)
-(* g5..g8 stay untouched for the probes; every block from WFar+2 on has a cellbase output cb<h>.        *)
+(*    T   : g8 -> t1 (type script = always success, args 9)                                             *)
+(* g5..g7 stay untouched for the probes; every block from WFar+2 on has a cellbase output cb<h>.        *)
 (* `EmitCtx` prints the context and, for every prefix m, the probe transactions with the verdicts the   *)
 (* SPEC assigns for a commit in block m+1 and for admission to the pool at tip m.                       *)
 EXTENDS TxRules, SequencesExt, FiniteSetsExt, Json
@@ -18,9 +19,9 @@ CONSTANTS NBlocks, WFar, Emit,
 VARIABLES ts, sched, pc
 vars == <<ts, sched, pc>>
 
-Names == <<"X", "Y", "DG", "DEP", "F">>
-PIns  == [X |-> <<"g1">>, Y |-> <<"x1">>, DG |-> <<"g2">>, DEP |-> <<"g3">>, F |-> <<"g4">>]
-POuts == [X |-> <<"x1", "x2">>, Y |-> <<"y1">>, DG |-> <<"dg", "dgd">>, DEP |-> <<"dfail", "dloop">>, F |-> <<"f1", "l1">>]
+Names == <<"X", "Y", "DG", "DEP", "F", "T">>
+PIns  == [X |-> <<"g1">>, Y |-> <<"x1">>, DG |-> <<"g2">>, DEP |-> <<"g3">>, F |-> <<"g4">>, T |-> <<"g8">>]
+POuts == [X |-> <<"x1", "x2">>, Y |-> <<"y1">>, DG |-> <<"dg", "dgd">>, DEP |-> <<"dfail", "dloop">>, F |-> <<"f1", "l1">>, T |-> <<"t1">>]
 Genesis == {"g1", "g2", "g3", "g4", "g5", "g6", "g7", "g8", "code"}
 LockOf(id) == IF id = "f1" THEN "fail" ELSE IF id = "l1" THEN "loop" ELSE "ok"
 ArgsOf(id) == IF id = "x2" THEN 1 ELSE IF id = "y1" THEN 2 ELSE 0
@@ -38,6 +39,7 @@ ChooseTxs ==
   /\ \E s \in SUBSET {n \in Rng(Names) : sched[n] = 0} :
        /\ ("Y" \in s => (sched["X"] # 0 \/ "X" \in s))
        /\ Cardinality(s) <= 2
+       /\ ("T" \in s => Cardinality(s) = 1)     \* T runs two script groups: alone it fills the block's cycle limit
        /\ sched' = [n \in Rng(Names) |-> IF n \in s THEN Len(ts) ELSE sched[n]]
   /\ pc' = IF Len(ts) = NBlocks THEN "done" ELSE "ts"
   /\ UNCHANGED ts
@@ -50,7 +52,8 @@ SpentAt(id, m) ==
   LET users == {n \in Rng(Names) : sched[n] # 0 /\ sched[n] <= m /\ id \in Rng(PIns[n])}
   IN IF users = {} THEN 0 ELSE sched[CHOOSE n \in users : TRUE]
 CellRec(id, born, cb, m) == [id |-> id, born |-> born, cb |-> cb, spent |-> SpentAt(id, m), lock |-> LockOf(id),
-                             args |-> ArgsOf(id), group |-> GroupOf(id)]
+                             args |-> ArgsOf(id), group |-> GroupOf(id),
+                             type |-> IF id = "t1" THEN "ok" ELSE "none", targs |-> IF id = "t1" THEN 9 ELSE 0]
 CbName(h) == "cb" \o ToString(h)
 Ledger(m) ==
   [ts |-> SubSeq(ts, 1, m),
@@ -67,7 +70,8 @@ Since(mm, rel, v) == [m |-> mm, rel |-> rel, resv |-> FALSE, v |-> v]
 In(c, s) == [c |-> c, since |-> s]
 Dep(c) == [c |-> c, grp |-> FALSE]
 Grp(c) == [c |-> c, grp |-> TRUE]
-Tx(ins, deps, hdeps) == [ins |-> ins, deps |-> deps, hdeps |-> hdeps, sum |-> "fee", occ |-> "roomy"]
+Tx(ins, deps, hdeps) == [ins |-> ins, deps |-> deps, hdeps |-> hdeps, sum |-> "fee", occ |-> "roomy", otype |-> "none"]
+Typed(tx, ty) == [tx EXCEPT !.otype = ty]
 NoOv == [made |-> {}, used |-> {}]
 EOv == [made |-> {"e1"}, used |-> {"g6"}]       \* helper E : g6 -> e1, placed before the probe
 
@@ -146,6 +150,17 @@ Probes(m) ==
   \cup {Pr(x, m, "script", "loop", "", Tx(<<In("l1", NoSince)>>, <<Dep("dloop")>>, <<>>))}
   \cup {Pr(x, m, "cycles", "groups", "", Tx([i \in 1..Len(s) |-> In(s[i], NoSince)], <<>>, <<>>)) :
           s \in {<<"g5">>, <<"g5", "g7">>, <<"g5", "x2">>, <<"g5", "x2", "y1">>}}
+  \* ---- type scripts: of an output (always success / always failure / infinite loop), of an input (t1); a type group costs
+  \*      like a lock group and never merges with one
+  \cup {Pr(x, m, "typescript", "out-ok", "", Typed(Tx(<<In("g5", NoSince)>>, <<>>, <<>>), "ok"))}
+  \cup {Pr(x, m, "typescript", "out-fail", "", Typed(Tx(<<In("g5", NoSince)>>, <<Dep("dfail")>>, <<>>), "fail"))}
+  \cup {Pr(x, m, "typescript", "out-loop", "", Typed(Tx(<<In("g5", NoSince)>>, <<Dep("dloop")>>, <<>>), "loop"))}
+  \cup {Pr(x, m, "typescript", "in-ok", "", Tx(<<In("t1", NoSince)>>, <<>>, <<>>))}
+  \cup {Pr(x, m, "typecycles", "out", "", Typed(Tx([i \in 1..Len(s) |-> In(s[i], NoSince)], <<>>, <<>>), "ok")) :
+          s \in {<<"g5", "g7">>, <<"g5", "x2">>}}
+  \cup {Pr(x, m, "typecycles", "in", "", Tx([i \in 1..Len(s) |-> In(s[i], NoSince)], <<>>, <<>>)) :
+          s \in {<<"t1", "g5">>, <<"t1", "x2">>}}
+  \cup {Pr(x, m, "typecycles", "in-and-out", "", Typed(Tx(<<In("t1", NoSince)>>, <<>>, <<>>), "ok"))}
 
 AsSeq(s) == SetToSeq(s)
 CtxRecord ==
